@@ -32,6 +32,14 @@ def gen_msgs(ctx):
                                 frames.append(F(ctrl, b"c%d" % i))
                             frames.append(F(op if i == 0 else 0, data[pts[i]:pts[i + 1]], fin=1 if i == k - 1 else 0))
                         out.append([(op, [data[pts[i]:pts[i + 1]] for i in range(k)], frames)])
+    # "any number": one message in 1300 fragments; two fragments with 1300 pongs / pings between them; then a second message
+    nl = 1300
+    out.append([(1, [b"a"] + [b""] * (nl - 2) + [b"z"],
+                 [F(1, b"a", fin=0)] + [F(0, b"", fin=0) for _ in range(nl - 2)] + [F(0, b"z", fin=1)]),
+                (2, [b"\x00\xff"], [F(2, b"\x00\xff")])])
+    for c in (10, 9):
+        out.append([(2, [b"a", b"b"], [F(2, b"a", fin=0)] + [F(c, b"") for _ in range(nl)] + [F(0, b"b", fin=1)]),
+                    (1, [b"next"], [F(1, b"next")])])
     # random: several messages, up to 6 fragments, 0-3 control frames in every gap, boundary-length fragments
     n = 3000 if ctx.thorough() else 400
     for _ in range(n):
@@ -82,11 +90,22 @@ def expected(msgs, api, fire, ctl):
     return exp
 
 
+def _decodable(data):
+    try:
+        bytes(data).decode("utf-8")
+        return True
+    except UnicodeDecodeError:
+        return False
+
+
 def render(exp, api):
     outs = []
     for kind, op, data, fin in exp:
         if api == "recv":
             if kind == "ctl":
+                continue
+            if op == 1 and not _decodable(data):
+                outs.append("X:PAYLOAD")        # recv() returns str: a fragment that ends inside a code point cannot be returned
                 continue
             outs.append(("T:" if op == 1 else "B:" if op == 2 else "E") + (summarize(data) if op in (1, 2) else ""))
         elif api.startswith("recvdata"):
@@ -110,13 +129,11 @@ def run(ctx):
         small = len(lists) and len(msgs) == 1 and len(stream) < 40
         combos = [(api, fire, ctl, skip) for api in ("recv", "recvdata", "rdf") for fire in (0, 1) for ctl in (0, 1) for skip in (0, 1)
                   if not (api == "recv" and ctl)]
-        if not (small and ctx.thorough()):
+        if len(frames) > 1000:
+            combos = [("recvdata", 0, 0, 0), ("recv", 0, 0, 1), ("rdf", 0, 0, 0), ("rdf", 1, 1, 0)]
+        elif not (small and ctx.thorough()):
             combos = rnd.sample(combos, 3)
         for api, fire, ctl, skip in combos:
-            if api == "recv" and fire:
-                # with per-fragment delivery recv() decodes each fragment separately; only ASCII-safe there
-                if any(op == 1 and any(max(fr, default=0) >= 0x80 for fr in frags) for op, frags, _ in msgs):
-                    continue
             opn = api if api == "recv" else f"{api}:{ctl}"
             exp = expected(msgs, api, fire, ctl)
             ncalls = len(render(exp, api)) + 1
